@@ -52,6 +52,12 @@ CHECKS = {
     text="Search over a finite domain: all single-system selections are enumerated in both tiers; pairs/triples of systems with per-system location subsets are sampled in quick (2.5k) and enumerated completely in thorough (about 110k requests). Files: every fixture file plus synthetic clear/encrypted tracks (16-byte IV, styp/sidx layouts).",
     note=SHIMS + ". Multi-period init route is exercised by C12.",
     design_ref="DESIGN.md section 4, C10"),
+ "C03": dict(
+    engine="hypothesis (generated streams, option vectors, sessions)",
+    technique="generated stored-segment kinds (synthetic media written with struct) x option vectors; every served media segment walked by an independent box reader: exact nesting, payload identity against the stored file, trun/saio offsets resolved against the response bytes, senc/PIFF entry equality",
+    text="Search, not proof: 0.7k/25k VOD cases (all segments of all matching representations, by number and by time) and 0.5k/20k live sessions per tier over fixture and synthetic media (8/16-byte IV, subsamples, no tfdt, explicit base offset, styp/sidx).",
+    note=SHIMS + ". vt/isobox.py and vt/synth.py share no code with dashlive.",
+    design_ref="DESIGN.md section 4, C03"),
 }
 
 _PENDING = "check under construction in this build round; not yet registered (see DESIGN.md section 9)"
